@@ -168,7 +168,8 @@ def run_schemes(case, r, rng):
             want.append(normalise((I + hk * A) @ want[-1], nz))
         for thr in (0, 1e-12):
             with r.op('explicit_euler%s:call' % o1):
-                sol = ode.explicit_euler(op, x0t, list(steps), threshold=thr, max_rank=50, normalize=nz, progress=False)
+                sl_ = list(steps); sol = ode.explicit_euler(op, x0t, sl_, threshold=thr, max_rank=50, normalize=nz, progress=False)
+                r.true('explicit_euler:step-list-unchanged', sl_ == list(steps), 'step_sizes modified')
                 compare_traj(r, 'explicit_euler%s' % o1, sol, want, x0t, dims)
                 if nz:
                     r.true('explicit_euler:unit-norm', all(abs(s.norm(p=nz) - 1) <= 1e-9 for s in sol[1:]), 'normalize=%d' % nz)
@@ -183,12 +184,14 @@ def run_schemes(case, r, rng):
                 sG = snap(guess)
                 kw = dict(tt_solver=tsolver, micro_solver=msolver, normalize=nz, progress=False, threshold=1e-14, max_rank=np.inf)
                 with r.op('implicit_euler%s:call' % o1):
-                    sol = ode.implicit_euler(op, x0t, guess, list(steps), **kw)
+                    sl_ = list(steps); sol = ode.implicit_euler(op, x0t, guess, sl_, **kw)
+                    r.true('implicit_euler:step-list-unchanged', sl_ == list(steps), 'step_sizes modified')
                     compare_traj(r, 'implicit_euler%s:%s' % (o1, tsolver), sol, wi, x0t, dims)
                     if nz:
                         r.true('implicit_euler:unit-norm', all(abs(s.norm(p=nz) - 1) <= 1e-9 for s in sol[1:]), 'normalize=%d' % nz)
                 with r.op('trapezoidal_rule%s:call' % o1):
-                    sol = ode.trapezoidal_rule(op, x0t, guess, list(steps), **kw)
+                    sl_ = list(steps); sol = ode.trapezoidal_rule(op, x0t, guess, sl_, **kw)
+                    r.true('trapezoidal_rule:step-list-unchanged', sl_ == list(steps), 'step_sizes modified')
                     compare_traj(r, 'trapezoidal_rule%s:%s' % (o1, tsolver), sol, wt, x0t, dims)
                 r.true('implicit:guess-unchanged', unchanged(guess, sG), 'initial guess modified')
         # ---- HOD (constant step); the scheme is not positivity preserving, so the signed "1-norm" of the library is
@@ -240,7 +243,9 @@ def run_schemes(case, r, rng):
         for name, f, w in (('errors_expl_euler', ode.errors_expl_euler, we), ('errors_impl_euler', ode.errors_impl_euler, wi_),
                            ('errors_trapezoidal', ode.errors_trapezoidal, wt_)):
             with r.op(name + o1 + ':call'):
-                got = f(op, lst, list(hs))
+                hl_ = list(hs); ll_ = list(lst)
+                got = f(op, ll_, hl_)
+                r.true(name + ':argument-lists-unchanged', hl_ == list(hs) and len(ll_) == len(lst) and all(a_ is b_ for a_, b_ in zip(ll_, lst)), 'solution or step list modified')
                 r.close(name + o1 + ':value', np.asarray(got, dtype=float), np.asarray(w), 1e-8)
     r.true('schemes:inputs-unchanged', unchanged(op, sO) and unchanged(x0t, sX), 'operator or initial value modified')
     return r
